@@ -43,7 +43,7 @@ def run_script(c, exe, cases_lines, ncases, label, per_case_timeout=5.0, workers
     with open(path, 'w') as f:
         f.write('\n'.join(cases_lines))
         f.write('\n')
-    outs = c.run_cases(exe, ['--script', path], ncases, per_case_timeout=per_case_timeout, label=label, workers=workers)
+    outs = c.run_cases(exe, ['--script', path, '--case-seconds', '30'], ncases, per_case_timeout=per_case_timeout, label=label, workers=workers)
     obs = {}
     for w in outs:
         for line in w.lines:
